@@ -787,8 +787,13 @@ func (db *DB) newTransaction(update, isManaged bool) *Txn {
 	txn := &Txn{
 		update: update,
 		db:     db,
-		count:  1,                       // One extra entry for BitFin.
-		size:   int64(len(txnKey) + 10), // Some buffer for the extra entry.
+		count:  1, // One extra entry for BitFin.
+		// Budget for that extra entry as sendToWriteCh will measure it at commit time: the key with
+		// its 8-byte timestamp, two meta bytes and a value holding the commit timestamp in decimal
+		// (up to 20 digits). With a smaller budget a transaction whose writes were all accepted
+		// could still be rejected by Commit with ErrTxnTooBig, depending on how many digits the
+		// commit timestamp has.
+		size: int64(len(txnKey) + 8 + 2 + 20),
 	}
 	if update {
 		if db.opt.DetectConflicts {
